@@ -6,6 +6,7 @@ import (
 	"os"
 	"path/filepath"
 	"sync"
+	"sync/atomic"
 	"time"
 
 	"github.com/fsnotify/fsnotify"
@@ -22,6 +23,7 @@ func init() {
 		Rule: "E-twin, cookie map vs the library's ring: sequential histories mixing moves within a watched directory, between two watched directories, in from outside, out to outside (1-200 unmatched cookies in a row), chains of 11-500 moves, " +
 			"moves of a watched file inside its watched directory, plain creates and hard links; every received Create must carry exactly the old name the kernel cookie pairs it with (read through Event.String and the hook), or none. " +
 			"Concurrent variant: 2-8 mover goroutines over 4 watched directories with a continuously drained shadow, compared per directory, pairing by kernel cookie. " +
+			"Ping-pong variant: 2-4 movers, each renaming one file back and forth in its own watched directory thousands of times under window control, so that halves of different moves interleave (FROM a, FROM b, TO a, ...); per-Create judgement up to a distance of 8 Renames in the Watcher's own received order (the ring holds ten). " +
 			"distinct_nontrivial = distinct histories with >=1 paired and >=1 unpaired Create",
 		Assumptions: []string{"kernel shadow = ground truth; the kernel's cookie is the definition of 'the same move'", "with more than 10 IN_MOVED_FROM between the two halves of one move the ten-slot ring legitimately forgets; the largest distance actually observed is reported and such histories are not generated sequentially"},
 		Batches:     func(t string) int { return map[string]int{"quick": 12, "thorough": 48}[t] },
@@ -29,7 +31,7 @@ func init() {
 		ChildTimeout: func(t string) time.Duration {
 			return map[string]time.Duration{"quick": 10 * time.Minute, "thorough": 40 * time.Minute}[t]
 		},
-		MustObserve: []string{"creates_with_old_name", "creates_without_old_name", "unmatched_moves_out", "concurrent_histories"},
+		MustObserve: []string{"creates_with_old_name", "creates_without_old_name", "unmatched_moves_out", "concurrent_histories", "pingpong_moves_with_other_halves_in_between"},
 		Run:         runC11,
 	})
 }
@@ -75,6 +77,15 @@ func runC11(c *core.Ctx) {
 		}
 		dir, done := caseDir(c, 1000+i)
 		c11Conc(c, rng, dir, i)
+		done()
+	}
+	for i := 0; i < c.Pick(2, 6); i++ {
+		rng, ok := c.CaseRng(2000+i, "ping-pong movers (interleaved halves)")
+		if !ok {
+			continue
+		}
+		dir, done := caseDir(c, 2000+i)
+		c11PingPong(c, rng, dir, i)
 		done()
 	}
 }
@@ -436,6 +447,214 @@ func c11Conc(c *core.Ctx, rng *rand.Rand, dir string, idx int) {
 		if !df.Empty() {
 			r := twin.Report{Diffs: []twin.WindowDiff{{Diff: df, Log: []string{"concurrent movers, directory " + filepath.Base(d)}}}}
 			c11Verdict(c, &r, fmt.Sprintf("concurrent (%d movers), directory %s", nth, filepath.Base(d)))
+		}
+	}
+}
+
+// c11PingPong: interleaved halves. 2-4 mover goroutines, each renaming one file back and forth inside its OWN
+// watched directory as fast as it can (throttled only so that neither kernel queue overflows): the two halves
+// of one move are then regularly separated by halves of other moves (FROM a, FROM b, TO a, FROM c, TO b ...).
+// Per directory there is one mover, so each directory's stream is a deterministic alternation; every Create
+// must carry the old name the kernel cookie pairs it with. The ring holds ten IN_MOVED_FROM; the distance that matters is the
+// one in the Watcher's own queue, read off the received stream; Creates up to a distance of 8 are judged.
+func c11PingPong(c *core.Ctx, rng *rand.Rand, dir string, idx int) {
+	s, err := twin.NewSession(dir, []int{-1, 0, 256}[rng.Intn(3)])
+	if err != nil {
+		c.Broken(err.Error())
+		return
+	}
+	var recv int64
+	s.OnEvent = func(twin.Ev) { atomic.AddInt64(&recv, 1) }
+	defer s.Close()
+	base := s.Base
+	nth := 2 + rng.Intn(3)
+	var dirs []string
+	var rep twin.Report
+	for i := 0; i < nth; i++ {
+		d := filepath.Join(base, fmt.Sprint("P", i))
+		os.Mkdir(d, 0o755)
+		os.WriteFile(filepath.Join(d, "p"), nil, 0o644)
+		dirs = append(dirs, d)
+		s.AddStrict(&rep, d)
+	}
+	s.Sync(&rep, true)
+	recv0 := atomic.LoadInt64(&recv)
+	var raws []twin.Raw
+	var rmu sync.Mutex
+	stop := make(chan struct{})
+	rdone := make(chan struct{})
+	go func() {
+		defer close(rdone)
+		for {
+			r := s.Sh.Drain()
+			if len(r) > 0 {
+				rmu.Lock()
+				raws = append(raws, r...)
+				rmu.Unlock()
+				continue
+			}
+			select {
+			case <-stop:
+				return
+			default:
+			}
+			time.Sleep(20 * time.Microsecond)
+		}
+	}()
+	per := c.Pick(3000, 15000)
+	if c.Race {
+		per = c.Pick(600, 3000)
+	}
+	var sent int64
+	var wg sync.WaitGroup
+	for th := 0; th < nth; th++ {
+		wg.Add(1)
+		go func(th int) {
+			defer wg.Done()
+			p, q := filepath.Join(dirs[th], "p"), filepath.Join(dirs[th], "q")
+			for k := 0; k < per; k++ {
+				if k%2 == 0 {
+					unix.Rename(p, q)
+				} else {
+					unix.Rename(q, p)
+				}
+				n := atomic.AddInt64(&sent, 2)
+				// window control (logical, not timed): never more than 6000 undelivered events
+				for n-(atomic.LoadInt64(&recv)-recv0) > 6000 {
+					time.Sleep(50 * time.Microsecond)
+					rmu.Lock()
+					back := int64(len(raws))
+					rmu.Unlock()
+					_ = back
+				}
+			}
+		}(th)
+	}
+	wg.Wait()
+	ok, dump := s.Barrier()
+	close(stop)
+	<-rdone
+	if !ok {
+		c.Inconclusive("ping-pong: barrier watchdog " + hangClass(dump))
+		return
+	}
+	raws = append(raws, s.Sh.Drain()...)
+	for _, r := range raws {
+		if r.Mask&unix.IN_Q_OVERFLOW != 0 {
+			c.Inconclusive("ping-pong: the shadow's queue overflowed; not judged")
+			return
+		}
+	}
+	// distance of the halves in the SHADOW's log (statistics only: how much interleaving the run produced)
+	pos := map[uint32]int{}
+	nfrom, maxGap, interleaved := 0, 0, 0
+	tok := map[int32]int{}
+	for _, r := range raws {
+		if r.Mask&unix.IN_MOVED_FROM != 0 {
+			nfrom++
+			pos[r.Cookie] = nfrom
+		} else if r.Mask&unix.IN_MOVED_TO != 0 {
+			g := nfrom - pos[r.Cookie]
+			if g > maxGap {
+				maxGap = g
+			}
+			if g > 0 {
+				interleaved++
+			}
+			tok[r.Wd]++
+		}
+	}
+	want := s.Sh.Translate(raws)
+	_, got, errs := s.Take()
+	// The distance that matters is the one in the Watcher's OWN queue (the two inotify instances may order
+	// notifications of different directories differently). It can be read off the received stream: per
+	// directory the k-th Rename and the k-th Create are the halves of the k-th move (one mover per
+	// directory), and every received Rename stands for one IN_MOVED_FROM the ring had to take in.
+	// Judged: Creates with at most 8 other Renames in between (the ring holds ten).
+	type key struct {
+		dir string
+		k   int
+	}
+	far := map[key]bool{}
+	judged := 0
+	{
+		renIdx := map[string][]int{} // dir -> number of Renames received so far, at each of its Renames
+		nRen := 0
+		nCre := map[string]int{}
+		for _, e := range got {
+			d := filepath.Dir(e.Name)
+			if e.Op&fsnotify.Rename != 0 {
+				nRen++
+				renIdx[d] = append(renIdx[d], nRen)
+			}
+			if e.Op&fsnotify.Create != 0 {
+				k := nCre[d]
+				nCre[d]++
+				if k < len(renIdx[d]) && nRen-renIdx[d][k] <= 8 {
+					judged++
+				} else {
+					far[key{d, k}] = true
+				}
+			}
+		}
+	}
+	thr := 8
+	c.Count("pingpong_renames", int64(nth*per))
+	c.Count("pingpong_moves_with_other_halves_in_between", int64(interleaved))
+	c.Count("pingpong_creates_judged", int64(judged))
+	c.Max("max_moved_from_between_halves_of_one_move", int64(maxGap))
+	c.Count("concurrent_histories", 1)
+	c.Count("events_received", int64(len(got)))
+	c.Eval(1)
+	if interleaved > 0 {
+		c.Distinct("pingpong", c.Batch, idx)
+	}
+	for _, e := range errs {
+		c.Inconclusive("ping-pong: value on Errors: " + e.Error())
+		return
+	}
+	// blank the old name of the Creates that are beyond the judged distance, on both sides
+	blank := func(l []twin.Ev, d string, on bool) []twin.Ev {
+		k := 0
+		out := append([]twin.Ev{}, l...)
+		for i := range out {
+			if out[i].Op&fsnotify.Create != 0 {
+				if on && far[key{d, k}] {
+					out[i].From = ""
+				}
+				k++
+			}
+		}
+		return out
+	}
+	proj := func(l []twin.Ev, d string) []twin.Ev {
+		var o []twin.Ev
+		for _, e := range l {
+			if filepath.Dir(e.Name) == d {
+				o = append(o, e)
+			}
+		}
+		return o
+	}
+	for _, d := range dirs {
+		pw, pg := proj(want, d), proj(got, d)
+		nw, ng := 0, 0
+		for _, e := range pw {
+			if e.Op&fsnotify.Create != 0 {
+				nw++
+			}
+		}
+		for _, e := range pg {
+			if e.Op&fsnotify.Create != 0 {
+				ng++
+			}
+		}
+		// with a different number of Creates than moves the k-th-to-k-th pairing is void: plain comparison
+		on := nw == ng
+		df := twin.Compare(blank(pw, d, on), blank(pg, d, on))
+		if !df.Empty() {
+			r := twin.Report{Diffs: []twin.WindowDiff{{Diff: df, Log: []string{fmt.Sprintf("ping-pong movers, directory %s, %d moves had halves of other moves in between (largest distance %d, judged up to %d)", filepath.Base(d), interleaved, maxGap, thr)}}}}
+			c11Verdict(c, &r, fmt.Sprintf("ping-pong (%d movers), directory %s", nth, filepath.Base(d)))
 		}
 	}
 }
